@@ -39,7 +39,7 @@ CHECKS["C04"] = dict(
    text="Same Gallina node model; theorems in Properties_C04.v relate running a node (reset, next until StopIteration, any number of epochs) to the list-function reference "
         "semantics sem (map f, chunking with drop_last, concat, filter, identity). Correspondence: three epochs of random pipelines compared with the model and with an independent "
         "Python list reference; concurrency runs (thread and process workers, in_order true/false, max_concurrent, prebatch, randomised per-item delays) checked against the list reference; "
-        "scheduler-driven runs of the real threads replayed step by step on the interleaving model ConcModel.v (Prefetcher, PinMemory's _pin_memory_loop as the same protocol with prefetch_factor 1, ParallelMapper in_order and unordered).",
+        "scheduler-driven runs of the real threads replayed step by step on the interleaving model ConcModel.v (Prefetcher, PinMemory's _pin_memory_loop as the same protocol with prefetch_factor 1, ParallelMapper in_order and unordered). (sched) also contains the oracle-only family in which Thread.is_alive() is a yield point (see C06); (conc) draws num_workers from 0..4.",
    design="DESIGN.md 4 C04",
    note="Trusted: Coq kernel + vm_compute; deterministic thread scheduler (harness/sched_threads.py) for the interleaving-level cases, delay jitter for the process-worker cases; harness user code. Interleaving-level theorems (every schedule without a reader-join timeout, every reachable state): C04_prefetcher_is_identity and C04_parallel_mapper_is_ordered_map (ParallelMapper in_order, thread workers: delivered items = map_fn over the source prefix, in order, each once; index discipline C04_parallel_mapper_index_discipline). in_order=False: C04_unordered_values_conserved / _no_invention / _multiset_when_drained (value-counting invariant, ConcPMU.v). Process workers are checked by jitter runs + oracle only.",
    technique="Coq proof over hand-written Gallina model + lockstep correspondence (vm_compute) + direct oracle")
@@ -135,7 +135,8 @@ CHECKS["C06"] = dict(
         "snapshot + steps = start position + items received (the consumer position, never the reader's), over any script incl. resets and loads; pop_version discipline for every store; "
         "the same statement is proved for ParallelMapper(in_order=True) over every interleaving of reader, workers, sorter and consumer (C06_parallel_mapper_tracks_consumer, invariant PMinv in ConcPM.v), hence C06_tracks_consumer_jt_free for both node kinds. Tie to the code: the REAL threads are run under a deterministic scheduler (every primitive a yield point) and the recorded "
         "schedule is replayed on the model, compared at EVERY step (pending primitive, offered moves, semaphore, queue contents, store versions) and on every outcome; "
-        "oracle: each state_dict() denotes exactly the consumer position and each continuation after a load equals the reference.",
+        "oracle: each state_dict() denotes exactly the consumer position and each continuation after a load equals the reference. A second, ORACLE-ONLY family of scheduled cases makes "
+        "Thread.is_alive() a yield point of its own (a liveness test after a timed wait is a later observation); its traces are outside the model's alphabet and are checked against the reference only.",
    design="DESIGN.md 4 C06",
    note="Trusted: Coq kernel + vm_compute; the cooperative primitives of harness/sched_threads.py (linearizable, GIL-atomic attribute reads); instrumented source whose state is its position; "
         "schedules in which a join() of an old reader times out belong to C12's known finding D10 and are excluded here; the invariant snap+steps = consumer position is proved for Prefetcher and ParallelMapper(in_order=True); in_order=False is checked by "
@@ -148,7 +149,7 @@ CHECKS["C11"] = dict(
         "always has a producer (reader, a worker or the sorter; for the Prefetcher the reader) that has not finished and whose next data-path primitive is enabled - the awaited entry is in flight "
         "exactly once (coverage invariant) or the reader can produce it; after the terminal entry the next next() does not wait. BOUNDED WORK: a rank rho that no move of any thread increases, in any "
         "state, and every successful data-path move strictly decreases. FAILURES SURFACE AT THE RIGHT PLACE: what next() is about to return (item, map_fn error, source error, end) is what the mapped source holds at the consumer's position. Tie to the code: scheduler-driven lockstep with failing sources / map functions and repeated next() after errors and end of stream; deadlock under the scheduler or "
-        "an exhausted step budget is a hang; process workers SIGKILLed in map_fn or while idle, and real-time runs, under a per-call deadline. Oracle: errors surface at the failing "
+        "an exhausted step budget is a hang; process workers SIGKILLed in map_fn or while idle, map_fn RAISING inside a process worker (plain exception, a class with a two-argument constructor, an unpicklable instance), and real-time runs, under a per-call deadline. Oracle: errors surface at the failing "
         "position after the preceding items, never a clean StopIteration in their place; every call returns.",
    design="DESIGN.md 4 C11",
    note="Trusted: Coq kernel + vm_compute; scheduler primitives; fairness of the random chooser; wall-clock deadlines (20 s per call) for process and real-time cases. Proved: every wait timed, no livelock (a waiting consumer is always served), bounded work (rank). "
